@@ -194,6 +194,8 @@ type tstate struct {
 	brk         []jseg
 	cont        []jseg
 	loops       []int // LoopBegin marks: len(jmp) at LoopBegin (unused), depth only
+	loopB       []int // open blocks at LoopBegin
+	loopF       []int // open templates at LoopBegin
 	flags       int
 	bufs        []bufSave
 	st          aff // st.* instructions emitted
@@ -218,6 +220,8 @@ func (s *tstate) clone() *tstate {
 	o.brk = append([]jseg(nil), s.brk...)
 	o.cont = append([]jseg(nil), s.cont...)
 	o.loops = append([]int(nil), s.loops...)
+	o.loopB = append([]int(nil), s.loopB...)
+	o.loopF = append([]int(nil), s.loopF...)
 	o.bufs = append([]bufSave(nil), s.bufs...)
 	return &o
 }
@@ -519,7 +523,7 @@ func (t *typing) emit(s *tstate, op string, val aval, path string) {
 		keep := func(l []jseg) []jseg {
 			var o []jseg
 			for _, j := range l {
-				if !j.e.sn.dead && j.e.sn.F >= s.sn.F {
+				if !j.e.sn.dead && j.e.sn.F != markLoopDepth && j.e.sn.F >= s.sn.F {
 					esc = true
 					continue
 				}
@@ -796,6 +800,8 @@ func (t *typing) primitive(s *tstate, name string, args []aval, path string) (av
 		return aval{}, true
 	case "LoopBegin":
 		s.loops = append(s.loops, len(s.brk)<<16|len(s.cont))
+		s.loopB = append(s.loopB, s.sn.B)
+		s.loopF = append(s.loopF, s.sn.F)
 		return aval{}, true
 	case "LoopEnd":
 		if len(s.loops) == 0 {
@@ -804,12 +810,20 @@ func (t *typing) primitive(s *tstate, name string, args []aval, path string) (av
 		}
 		m := s.loops[len(s.loops)-1]
 		s.loops = s.loops[:len(s.loops)-1]
-		s.brk = s.brk[:m>>16]
-		s.cont = s.cont[:m&0xffff]
+		s.loopB = s.loopB[:len(s.loopB)-1]
+		s.loopF = s.loopF[:len(s.loopF)-1]
+		s.brk = s.brk[:minInt(m>>16, len(s.brk))]
+		s.cont = s.cont[:minInt(m&0xffff, len(s.cont))]
 		return aval{}, true
 	case "BreakPush", "ContinuePush":
-		// if loopLayer > 0 { AddOp(typeJmp); push }: actions call it only under loopLayer != 0
+		// if loopLayer > 0 { [unwindToLoop();] AddOp(typeJmp); push }: actions call it only under loopLayer != 0
+		unwinds := t.unwindsBeforeJump(name)
 		t.emit(s, "typeJmp", aval{}, path)
+		if unwinds && !s.jumpSnap.dead {
+			// the blocks and templates opened since the loop began were closed before the jump (contract of
+			// unwindToLoop, Engine A): the jump leaves with exactly the loop's own nesting
+			s.jumpSnap.B, s.jumpSnap.F, s.jumpSnap.D = markLoopDepth, markLoopDepth, 0
+		}
 		e := []jseg{{n: affC(1), e: jent{sn: s.jumpSnap, opID: s.lastOp}}}
 		if name == "BreakPush" {
 			s.brk = unionSegs(s.brk, e)
@@ -821,9 +835,15 @@ func (t *typing) primitive(s *tstate, name string, args []aval, path string) (av
 		// every break of the current loop lands at the current position
 		if len(s.loops) > 0 {
 			m := s.loops[len(s.loops)-1]
-			for _, b := range s.brk[m>>16:] {
+			for _, b := range s.brk[minInt(m>>16, len(s.brk)):] {
 				// one obligation per class of break source (open blocks / templates at the break)
-				t.joinSnap(&s.sn, b.e.sn, path, fmt.Sprintf("BreakSet:B%d,F%d", b.e.sn.B, b.e.sn.F))
+				src := b.e.sn
+				what := fmt.Sprintf("BreakSet:B%d,F%d", src.B, src.F)
+				if src.B == markLoopDepth {
+					what = "BreakSet:unwound"
+					src.B, src.F, src.D = s.loopB[len(s.loopB)-1], s.loopF[len(s.loopF)-1], s.sn.D
+				}
+				t.joinSnap(&s.sn, src, path, what)
 			}
 		}
 		return aval{}, true
@@ -841,9 +861,15 @@ func (t *typing) primitive(s *tstate, name string, args []aval, path string) (av
 		tgt := s.jmp[idx].e
 		if len(s.loops) > 0 {
 			m := s.loops[len(s.loops)-1]
-			for _, c := range s.cont[m&0xffff:] {
+			for _, c := range s.cont[minInt(m&0xffff, len(s.cont)):] {
 				cur := tgt.sn
-				t.joinSnap(&cur, c.e.sn, path, fmt.Sprintf("ContinueSet:B%d,F%d", c.e.sn.B, c.e.sn.F))
+				src := c.e.sn
+				what := fmt.Sprintf("ContinueSet:B%d,F%d", src.B, src.F)
+				if src.B == markLoopDepth {
+					what = "ContinueSet:unwound"
+					src.B, src.F, src.D = s.loopB[len(s.loopB)-1], s.loopF[len(s.loopF)-1], cur.D
+				}
+				t.joinSnap(&cur, src, path, what)
 			}
 		}
 		return aval{}, true
@@ -869,7 +895,12 @@ func (t *typing) primitive(s *tstate, name string, args []aval, path string) (av
 		ok = ok && len(s.jmp) == b.jmpLen && len(s.cnt) <= b.cntLen
 		t.obl("peg:"+path+"/typed:root@CodePop", "the nested code buffer ends balanced (no open block, template, dice, pending jump or counter)", propsTyped, ok,
 			fmt.Sprintf("at the end of the nested buffer: open blocks %d, templates %d, dice %d, pending jumps %d, counters %d", s.sn.B, s.sn.F, s.sn.D, len(s.jmp)-b.jmpLen, len(s.cnt)-b.cntLen))
-		t.obl("peg:"+path+"/typed:bind@buffer-escape", "no break/continue inside a nested code buffer refers to a loop outside it", propsTyped, len(s.brk) == 0 && len(s.cont) == 0,
+		escapes := len(s.brk) > 0 || len(s.cont) > 0
+		if t.codePushResetsLoops() {
+			// CodePush sets loopLayer to 0: a break/continue that has no loop inside the buffer fails its action
+			escapes = false
+		}
+		t.obl("peg:"+path+"/typed:bind@buffer-escape", "no break/continue inside a nested code buffer refers to a loop outside it", propsTyped, !escapes,
 			"a break or continue compiled into a nested code buffer (function / computed value body) is patched by the enclosing loop with indices of the outer buffer")
 		s.bufs = s.bufs[:len(s.bufs)-1]
 		s.sn, s.blk, s.fbl = b.sn, b.blk, b.fbl
@@ -1554,7 +1585,13 @@ func (t *typing) applySummary(s *tstate, sum *tstate, path, rule string) {
 			x.dead = true
 			return x
 		}
-		return snap{dead: x.dead, H: shiftH(x.H), B: base.B + x.B, F: base.F + x.F, D: base.D + x.D, detail: base.detail || x.detail}
+		nb, nf, nd := base.B+x.B, base.F+x.F, base.D+x.D
+		if x.B == markLoopDepth {
+			// an unwound break/continue: its nesting is the loop's, whatever the context (open dice.init states are
+			// not part of the jump discipline: the VM never closes them)
+			nb, nf, nd = markLoopDepth, markLoopDepth, 0
+		}
+		return snap{dead: x.dead, H: shiftH(x.H), B: nb, F: nf, D: nd, detail: base.detail || x.detail}
 	}
 	// counters
 	for i := 0; i < sum.cntUnder; i++ {
@@ -2150,4 +2187,61 @@ func (t *typing) shadowed(ch *pegNode) {
 			}
 		}
 	}
+}
+
+// markLoopDepth: nesting of a break/continue jump that unwound to its loop (equal to the loop's own nesting, whatever it is)
+const markLoopDepth = -777
+
+// unwindsBeforeJump: the body of BreakPush / ContinuePush calls unwindToLoop before it emits the jump.
+func (t *typing) unwindsBeforeJump(name string) bool {
+	fi := t.e.P.Funcs["(*ParserData)."+name]
+	if fi == nil || fi.Decl == nil || fi.Decl.Body == nil {
+		return false
+	}
+	seenUnwind, ok := false, false
+	ast.Inspect(fi.Decl.Body, func(n ast.Node) bool {
+		ce, isCall := n.(*ast.CallExpr)
+		if !isCall {
+			return true
+		}
+		se, isSel := ce.Fun.(*ast.SelectorExpr)
+		if !isSel {
+			return true
+		}
+		switch se.Sel.Name {
+		case "unwindToLoop":
+			seenUnwind = true
+		case "AddOp":
+			if len(ce.Args) == 1 {
+				if id, isID := ce.Args[0].(*ast.Ident); isID && id.Name == "typeJmp" && seenUnwind {
+					ok = true
+				}
+			}
+		}
+		return true
+	})
+	if ok {
+		t.e.Assumptions["grammar typing: unwindToLoop closes exactly the blocks and templates opened since LoopBegin (its Engine A contract) and blockDepth/fstrDepth count the open block instructions of the current buffer (AddOp is the only emitter of block instructions besides unwindToLoop)"] = true
+	}
+	return ok
+}
+
+// codePushResetsLoops: CodePush assigns loopLayer = 0 (a nested code buffer starts outside every loop).
+func (t *typing) codePushResetsLoops() bool {
+	fi := t.e.P.Funcs["(*ParserData).CodePush"]
+	if fi == nil || fi.Decl == nil || fi.Decl.Body == nil {
+		return false
+	}
+	ok := false
+	ast.Inspect(fi.Decl.Body, func(n ast.Node) bool {
+		if as, isAs := n.(*ast.AssignStmt); isAs && len(as.Lhs) == 1 && len(as.Rhs) == 1 {
+			if se, isSel := as.Lhs[0].(*ast.SelectorExpr); isSel && se.Sel.Name == "loopLayer" {
+				if bl, isLit := as.Rhs[0].(*ast.BasicLit); isLit && bl.Value == "0" {
+					ok = true
+				}
+			}
+		}
+		return true
+	})
+	return ok
 }
